@@ -55,3 +55,32 @@ Proof.
   rewrite IH by (intros b Hb; apply H; right; exact Hb).
   destruct (Surfer.map_opt p t); reflexivity.
 Qed.
+
+(** ** comparison of int tuples (shapes) *)
+Lemma all_num_VZ l : forallb (fun v => match v with VZ _ | VQ _ => true | _ => false end) (map VZ l) = true.
+Proof. induction l as [|x t IH]; [reflexivity|]. cbn [map forallb]. rewrite IH. reflexivity. Qed.
+
+Lemma tuple_eqb_VZ a : forall b, tuple_eqb (map VZ a) (map VZ b) = Some (Verdict.list_eqb Z.eqb a b).
+Proof.
+  induction a as [|x a IH]; intros [|y b]; try reflexivity.
+  - change (tuple_eqb (map VZ []) (map VZ (y :: b)))
+      with (if forallb (fun v => match v with VZ _ | VQ _ => true | _ => false end) ([] ++ map VZ (y :: b))
+            then Some false else None).
+    cbn [app]. rewrite all_num_VZ. reflexivity.
+  - change (tuple_eqb (map VZ (x :: a)) (map VZ []))
+      with (if forallb (fun v => match v with VZ _ | VQ _ => true | _ => false end) (map VZ (x :: a) ++ [])
+            then Some false else None).
+    rewrite app_nil_r, all_num_VZ. reflexivity.
+  - cbn [map tuple_eqb Verdict.list_eqb]. rewrite IH. cbn [cmp_scalar]. reflexivity.
+Qed.
+
+Lemma cmp_bc_ne_VZ a b :
+  cmp_bc CNe (VT (map VZ a)) (VT (map VZ b)) = Some (VB (negb (Verdict.list_eqb Z.eqb a b))).
+Proof. cbn [cmp_bc cmp_val]. rewrite tuple_eqb_VZ. reflexivity. Qed.
+
+(** decoding a list of rendered numbers *)
+Lemma map_opt_decode {A} (nv : A -> val) (vn : val -> option A) :
+  (forall x, vn (nv x) = Some x) -> forall l, PyLite.map_opt vn (map nv l) = Some l.
+Proof.
+  intros H l. induction l as [|x t IH]; [reflexivity|]. cbn [map PyLite.map_opt]. rewrite H, IH. reflexivity.
+Qed.
